@@ -219,6 +219,7 @@ class Executor:
         s.fork_sites = {} if os.environ.get('MIRSE_FORK_SITES') else None
         s.block_hook = None; s.drop_hook = None; s.move_hook = None
         s.str_cap = 40
+        s.where_log = os.environ.get('MIRSE_WHERE')
         s._stack = []
 
     # ---- solver
@@ -234,6 +235,9 @@ class Executor:
         for c in pc:
             if c is not True: sol.add(zb(c))
         if extra is not None: sol.add(zb(extra))
+        if s.where_log:
+            sys.stderr.write('[mirse] query pc=%d at %s\n' % (len(pc), s.cur_where))
+            if s.where_log != '1': open(s.where_log, 'w').write(sol.to_smt2())
         r = sol.check()
         m = sol.model() if (r == z3.sat and want_model) else None
         dt = time.time() - t
@@ -301,6 +305,12 @@ class Executor:
             return Int('char', ord(b))
         if ch == 'b' and c[1:2] == "'":
             return Int('u8', M.unescape(c[2:-1])[0])
+        mm = re.match(r'^(?:core::|std::)?(u8|u16|u32|u64|u128|usize|i8|i16|i32|i64|i128|isize)::(MIN|MAX|BITS)$', c)
+        if mm:
+            ty = mm.group(1); bits = {'usize': 64, 'isize': 64}.get(ty) or int(ty[1:])
+            if mm.group(2) == 'BITS': return Int('u32', bits)
+            if ty[0] == 'u': return Int(ty, 0 if mm.group(2) == 'MIN' else (1 << bits) - 1)
+            return Int(ty, -(1 << (bits - 1)) if mm.group(2) == 'MIN' else (1 << (bits - 1)) - 1)
         if c.startswith('ZeroSized: '):
             t = c[11:]
             if t.startswith('{closure@'): return Closure(t, ())
